@@ -48,7 +48,7 @@ def _case(draw):
         from .c16 import _wrap
         spec = _wrap(draw, spec, 0, "root")
     mode = draw(st.sampled_from(["near-multi", "near-multi", "near-multi", "multi", "multi", "near",
-                                 "unrelated"]))
+                                 "unrelated", "typed-zoo"]))
     try:
         if mode == "near-multi":
             v, _n = draw(values.near_multi(spec, draw(st.integers(2, 4))))
@@ -58,6 +58,10 @@ def _case(draw):
                 v, _p = draw(values.perturb(v, min_depth=1))
         elif mode == "near":
             v, _a = draw(values.near(spec))
+        elif mode == "typed-zoo":
+            # objects that nearly pass a node's type guard, placed at that node (Decimal / Fraction / a whole number at a
+            # float position, bool at an int position, datetime at a date position ...)
+            v, _n = draw(values.typed_zoo(spec, draw(st.integers(1, 3))))
         else:
             v = draw(st.one_of(values.junk, values.zoo))
     except values.Unsat:
@@ -71,6 +75,18 @@ def strategy(tier):
 
 def exhaustive(tier):
     yield from _exhaustive_floats()
+    # numbers of another kind at constrained int / float positions: whatever the verdict, an error must report the very
+    # object that sits at its path
+    from ..codec import Zoo
+    nodes = [{"t": "float", "min": 2.0, "order": ["min"]}, {"t": "float", "max": 1.0, "order": ["max"]}, {"t": "float", "value": 0.0},
+             {"t": "float", "value": 0.5, "precision": 1, "order": ["precision"]}, {"t": "int", "min": 5, "order": ["min"]},
+             {"t": "int", "value": 3}, {"t": "any", "alts": [{"t": "float", "max": 1.0, "order": ["max"]}, {"t": "none"}]}]
+    others = [Zoo("decimal"), Zoo("fraction"), Zoo("int_2_53_1"), Zoo("true"), Zoo("float_subclass"), Zoo("int_subclass"), 1, 1.5, 7.0]
+    for n in nodes:
+        for x in others:
+            yield {"spec": n, "value": x}
+            yield {"spec": {"t": "list", "form": "typed", "elem": n}, "value": [x, x]}
+            yield {"spec": {"t": "dict", "entries": [{"key": "k", "opt": False, "spec": n}], "relaxed": False}, "value": {"k": x}}
     # required keys of every odd kind (falsy ones, None, tuples, braces), missing at the root and one level down
     for key in (None, 0, "", False, (), "{x}", "a.b", 2.5, b""):
         d = {"t": "dict", "entries": [{"key": key, "opt": False, "spec": {"t": "int"}},
